@@ -58,6 +58,19 @@ def _variant_cfg(fam, var):
     if var.get("extra_target"):
         eng["targets"].append(su.target_cfg(50001 + var["extra_target"], sma_km=7000.0 + 300 * var["extra_target"],
                                             inc_deg=20.0 * var["extra_target"], ta_deg=45.0))
+    if var.get("space_sensors"):
+        import json as _json
+        import os as _os
+        sat = _json.load(open(_os.path.join(su.CFG_DIR, "sensor_sets", "sat_sensors.json")))
+        eng["sensors"] = eng["sensors"] + sat[:var["space_sensors"]]          # other (space-based) agents join
+    if var.get("adaptive"):
+        sf = cfg["estimation"]["sequential_filter"]
+        sf["maneuver_detection"] = {"name": "standard_nis", "threshold": 0.5, "parameters": {}}
+        sf["adaptive_estimation"] = True
+        sf["save_filter_steps"] = True
+        cfg["estimation"]["adaptive_filter"] = {"name": var["adaptive"], "orbit_determination": "lambert_universal",
+                                                "model_interval": 60, "stacking_method": "eci_stack", "observation_window": 1,
+                                                "prune_threshold": 1e-10, "prune_percentage": 0.995}
     if var.get("drop_sensor") is not None and len(eng["sensors"]) > 1:
         del eng["sensors"][var["drop_sensor"]]
     if var.get("sensor_noise"):
@@ -165,7 +178,9 @@ def make_families(ctx: Ctx, rng):
         {"table_env": True, "env_seed": 11, "schedule": "random", "sched_seed": 9},
         {"reward": REWARD_ALT},
         {"extra_target": 1},
-        {"split_at": 2},                                        # the run is split exactly at the family's impulse epoch
+        {"split_at": 2},
+        {"space_sensors": 2, "table_env": True, "env_seed": 4},
+        {"adaptive": "smm", "table_env": True, "env_seed": 6, "schedule": "lifo"},                                        # the run is split exactly at the family's impulse epoch
         {"drop_sensor": 0, "schedule": "random", "sched_seed": 2},
         {"events": [{"kind": "removeSensor", "t0": None, "index": -1}]},   # another agent leaves mid-run
         {"events": [{"kind": "addTarget", "t0": None}], "decision": "MyopicNaiveGreedyDecision"},
